@@ -217,7 +217,39 @@ func genPipePlan(seed int64, o PipeGenOpts) *PipePlan {
 					rest = rest[n:]
 				}
 				// later phases: data
+				var pending *model.Template
 				for ph := 1; ph < nPhases; ph++ {
+					if pending != nil {
+						// the redefinition announced in the previous phase is now in force
+						for ti := range fe.tpls {
+							if fe.tpls[ti].ID == pending.ID {
+								fe.tpls[ti] = *pending
+							}
+						}
+						pending = nil
+					}
+					if o.Reannounce && ph >= 1 && ph < nPhases-1 && r.Intn(2) == 0 {
+						// re-announce one template with a different definition; data of
+						// this phase for that id is ambiguous, later phases use the new one
+						old := fe.tpls[r.Intn(len(fe.tpls))]
+						nt := fe.g.Template(old.ID)
+						if r.Intn(3) == 0 && len(old.Fields) > 0 {
+							// same elements, other lengths
+							nt = old
+							nt.Fields = append([]model.FieldSpec(nil), old.Fields...)
+							for fi := range nt.Fields {
+								if nt.Fields[fi].Len != 65535 && nt.Fields[fi].Len > 1 {
+									nt.Fields[fi].Len--
+								}
+							}
+						}
+						if !nt.Equal(&old) {
+							m := &model.Msg{Proto: mp, Time: r.Uint32(), Seq: seqOf(), Domain: ex.Domain, SysUp: r.Uint32()}
+							m.Sets = fe.g.TemplateSets([]model.Template{nt})
+							add(Delivery{Phase: ph, AtUs: at(), Proto: proto, Exporter: fe.idx, Abs: m})
+							pending = &nt
+						}
+					}
 					nd := 1 + r.Intn(4)
 					for k := 0; k < nd && len(p.Dels) < maxDels; k++ {
 						m := &model.Msg{Proto: mp, Time: r.Uint32(), Seq: seqOf(), Domain: ex.Domain, SysUp: r.Uint32()}
